@@ -5,7 +5,6 @@ import (
 	"go/ast"
 	"go/token"
 	"go/types"
-	"regexp"
 	"sort"
 	"strings"
 
@@ -89,28 +88,68 @@ func c18Arena(r *core.Run, p *core.Prog, name string) {
 	if f == nil {
 		return
 	}
-	info := f.Info()
-	key := f.Obj.Type().(*types.Signature).Params().At(0)
 	fData := p.FieldObj(pkgHashmap, "Map", "keyData")
 	fPos := p.FieldObj(pkgHashmap, "Map", "keyDataPos")
+	// The slot of a new key is `*slot = <arena slice>` in the function itself, or `*slot = m.helper(key)` with the helper
+	// cutting, filling and returning the slice. scope = the function in which the arena is sliced; slotIs(e) recognises the
+	// expression that denotes the slot there (`*insertK`, or the local the helper returns).
+	scope := f
+	key := f.Obj.Type().(*types.Signature).Params().At(0)
+	info := f.Info()
+	var slotAssignInF token.Pos
+	slotIsDeref := true
+	var slotLocal types.Object
+	core.Walk(f.Decl.Body, false, func(x ast.Node) bool {
+		s, ok := x.(*ast.AssignStmt)
+		if !ok || len(s.Lhs) != 1 || len(s.Rhs) != 1 {
+			return true
+		}
+		if _, ok := ast.Unparen(s.Lhs[0]).(*ast.StarExpr); ok && strings.HasSuffix(core.TypeName(info.TypeOf(s.Lhs[0])), "hashmap.Key") {
+			slotAssignInF = s.Pos()
+			if c, ok := ast.Unparen(s.Rhs[0]).(*ast.CallExpr); ok {
+				if fo, ok := core.Callee(info, c).(*types.Func); ok {
+					if h := p.FnOf(fo); h != nil && len(c.Args) == 1 && core.ObjOf(info, c.Args[0]) == key {
+						// the helper must return one local; that local is the slot
+						var ret types.Object
+						nRet := 0
+						core.Walk(h.Decl.Body, false, func(y ast.Node) bool {
+							if rs, ok := y.(*ast.ReturnStmt); ok && len(rs.Results) == 1 {
+								nRet++
+								ret = core.ObjOf(h.Info(), rs.Results[0])
+							}
+							return true
+						})
+						if nRet == 1 && ret != nil {
+							scope, slotIsDeref, slotLocal = h, false, ret
+							key = h.Obj.Type().(*types.Signature).Params().At(0)
+						}
+					}
+				}
+			}
+		}
+		return true
+	})
+	info = scope.Info()
+	isSlot := func(e ast.Expr) bool {
+		if slotIsDeref {
+			_, ok := ast.Unparen(e).(*ast.StarExpr)
+			return ok && strings.HasSuffix(core.TypeName(info.TypeOf(e)), "hashmap.Key")
+		}
+		return core.ObjOf(info, e) == slotLocal
+	}
 	var slotAssign, copyPos, growPos, advPos token.Pos
 	slotOK, copyOK, growOK, advOK := false, false, false, false
-	var slotVar string
-	core.Walk(f.Decl.Body, false, func(x ast.Node) bool {
+	core.Walk(scope.Decl.Body, false, func(x ast.Node) bool {
 		switch s := x.(type) {
 		case *ast.AssignStmt:
 			if len(s.Lhs) != 1 || len(s.Rhs) != 1 {
 				return true
 			}
-			if st, ok := ast.Unparen(s.Lhs[0]).(*ast.StarExpr); ok && strings.HasSuffix(core.TypeName(info.TypeOf(s.Lhs[0])), "hashmap.Key") {
-				slotVar = core.Str(st.X)
+			if isSlot(s.Lhs[0]) {
 				slotAssign = s.Pos()
 				if se, ok := ast.Unparen(s.Rhs[0]).(*ast.SliceExpr); ok && core.SelField(info, se.X) == fData &&
 					core.MentionsField(info, se.Low, fPos) && core.MentionsField(info, se.High, fPos) && strings.Contains(core.Str(se.High), "len("+key.Name()+")") {
 					slotOK = true
-				}
-				if core.MentionsObj(info, s.Rhs[0], key) && !slotOK {
-					slotOK = false
 				}
 			}
 			if core.SelField(info, s.Lhs[0]) == fPos && s.Tok == token.ADD_ASSIGN && core.Str(s.Rhs[0]) == "len("+key.Name()+")" {
@@ -122,18 +161,19 @@ func c18Arena(r *core.Run, p *core.Prog, name string) {
 				}
 			}
 		case *ast.IfStmt:
-			if b, ok := core.BinOp(s.Cond, token.GTR); ok && core.MentionsField(info, b.X, fPos) && strings.Contains(core.Str(b.X), "len("+key.Name()+")") && core.MentionsField(info, b.Y, fData) {
+			if bx, ok := core.BinOp(s.Cond, token.GTR); ok && core.MentionsField(info, bx.X, fPos) && strings.Contains(core.Str(bx.X), "len("+key.Name()+")") && core.MentionsField(info, bx.Y, fData) {
 				growOK = true
 			}
 		case *ast.CallExpr:
-			if core.CallName(info, s) == "builtin.copy" && len(s.Args) == 2 && core.ObjOf(info, s.Args[1]) == key {
-				if st, ok := ast.Unparen(s.Args[0]).(*ast.StarExpr); ok && core.Str(st.X) == slotVar {
-					copyOK, copyPos = true, s.Pos()
-				}
+			if core.CallName(info, s) == "builtin.copy" && len(s.Args) == 2 && core.ObjOf(info, s.Args[1]) == key && isSlot(s.Args[0]) {
+				copyOK, copyPos = true, s.Pos()
 			}
 		}
 		return true
 	})
+	if scope != f && !slotAssignInF.IsValid() {
+		slotOK = false
+	}
 	r.Check(rule, name+":slot-is-slice-of-own-arena", p.Rel(f.Decl.Pos()), slotOK,
 		"the key slot of a new entry must be m.keyData[pos:pos+len(key)]; storing the caller's slice makes later changes of the caller's buffer (the aggregation code reuses one key buffer for all entries) change the keys inside the map")
 	r.Check(rule, name+":caller-bytes-copied-into-slot", p.Rel(f.Decl.Pos()), copyOK && copyPos > slotAssign, "copy(*slot, key) must follow the slot assignment")
@@ -148,36 +188,45 @@ func c18SetSiblings(r *core.Run, p *core.Prog) {
 	if a == nil || b == nil {
 		return
 	}
-	norm := func(f *core.Fn) []string {
-		var ls []string
-		flatStmts(f.Decl.Body.List, &ls)
-		var out []string
-		cmpRe := regexp.MustCompile(`string\((\w+(?:\.\w+\[\w+\])?)\) != string\((\w+(?:\.\w+\[\w+\])?)\)`)
-		for _, l := range ls {
-			if strings.Contains(l, "panic(") || strings.Contains(l, "vals[i]") || strings.Contains(l, "*insertV =") {
-				continue // the documented differences: what happens to the value
+	// sets of statements with the conditions they execute under, canonically rendered (see guardedStatements); the documented
+	// difference is what happens to the value: the update of an existing entry and the value stored for a new one
+	norm := func(f *core.Fn) map[string]bool {
+		out := map[string]bool{}
+		for _, l := range guardedStatements(newCanon(f), f.Decl.Body.List) {
+			st := l[strings.Index(l, "] ")+2:]
+			if strings.Contains(st, "panic(") {
+				continue
 			}
-			if m := cmpRe.FindStringSubmatch(l); m != nil {
-				ops := []string{m[1], m[2]}
-				sort.Strings(ops)
-				l = "if keys-differ(" + ops[0] + "," + ops[1] + ")"
+			lhs := st
+			if i := strings.Index(st, " "); i >= 0 {
+				lhs = st[:i]
 			}
-			out = append(out, l)
+			// value handling: stores through a *Val (an element of vals[], or the insert-slot pointer), return after the update
+			if strings.Contains(lhs, ".vals[") && !strings.HasPrefix(lhs, "var<insert") && !strings.HasPrefix(lhs, "local:insert") {
+				if !strings.Contains(st, " = &") { // `insertV = &b.vals[i]` (choosing the slot) is part of the common search
+					continue
+				}
+			}
+			if strings.HasPrefix(lhs, "*") && strings.Contains(lhs, "nsertV") {
+				continue
+			}
+			out[l] = true
 		}
 		return out
 	}
 	la, lb := norm(a), norm(b)
 	diff := ""
-	for i := 0; i < len(la) && i < len(lb); i++ {
-		if la[i] != lb[i] {
-			diff = fmt.Sprintf("statement %d: Set `%s` vs SetOrUpdate `%s`", i, la[i], lb[i])
-			break
+	for l := range la {
+		if !lb[l] {
+			diff = "only in Set: " + l
 		}
 	}
-	if diff == "" && len(la) != len(lb) {
-		diff = fmt.Sprintf("%d vs %d statements", len(la), len(lb))
+	for l := range lb {
+		if !la[l] {
+			diff = "only in SetOrUpdate: " + l
+		}
 	}
-	r.Check(rule, "Map.Set~Map.SetOrUpdate", p.Rel(b.Decl.Pos()), diff == "", "bucket search, growth trigger, overflow handling and key insertion must be identical in both (only the treatment of the value may differ): "+diff)
+	r.Check(rule, "Map.Set~Map.SetOrUpdate", p.Rel(b.Decl.Pos()), diff == "" && len(la) >= 15, "bucket search, growth trigger, overflow handling and key insertion must be identical in both (only the treatment of the value may differ): "+diff)
 	r.Stat("statements_compared", len(la))
 }
 
@@ -201,48 +250,59 @@ func c18MergeSiblings(r *core.Run, p *core.Prog) {
 		r.Undecided(rule, "Map.Merge~Iter.Next:labels", p.Rel(mg.Decl.Pos()), "label `next:` not found in one of the two functions")
 		return
 	}
-	var la, lb []string
-	flatStmts(a, &la)
-	flatStmts(b, &lb)
-	mre := regexp.MustCompile(`\bm\b`)
+	// canonical summaries: the iterator is "IT" in both (receiver of Next, local of Merge), the iterated map is IT.m (the local
+	// `m := it.m` of Next is inlined; the parameter of Merge is what iter() stored into it.m)
+	cm, cx := newCanon(mg), newCanon(nx)
+	cx.names[nx.Obj.Type().(*types.Signature).Recv()] = "IT"
+	cm.names[mg.Obj.Type().(*types.Signature).Params().At(0)] = "IT.m"
+	core.Walk(mg.Decl.Body, false, func(x ast.Node) bool {
+		if vs, ok := x.(*ast.ValueSpec); ok {
+			for _, nm := range vs.Names {
+				if o := mg.Info().Defs[nm]; o != nil && strings.HasSuffix(core.TypeName(o.Type()), "hashmap.Iter") {
+					cm.names[o] = "IT"
+				}
+			}
+		}
+		return true
+	})
 	var na, nb []string
-	for _, l := range la {
+	for _, l := range guardedStatements(cm, a) {
 		// what Merge does with a found entry, and its way of continuing
-		if strings.Contains(l, "SetOrUpdate") || l == "val := it.val" || l == "goto start" {
+		if strings.Contains(l, "SetOrUpdate(") {
 			continue
 		}
-		if l == "return " {
-			l = "return"
+		l = strings.Replace(l, "] goto start", "] FOUND", 1)
+		if strings.HasSuffix(l, "] return") {
+			l = strings.TrimSuffix(l, "return") + "END"
 		}
 		na = append(na, l)
 	}
-	for _, l := range lb {
-		l = mre.ReplaceAllString(l, "src")
-		if l == "return true" {
-			continue
-		}
-		if l == "return false" {
-			l = "return"
-		}
+	for _, l := range guardedStatements(cx, b) {
+		l = strings.Replace(l, "] return true", "] FOUND", 1)
+		l = strings.Replace(l, "] return false", "] END", 1)
 		nb = append(nb, l)
 	}
-	for i := range na {
-		na[i] = strings.TrimSpace(strings.Replace(na[i], "it.src.", "it.m.", -1))
+	sort.Strings(na)
+	sort.Strings(nb)
+	inA, inB := map[string]bool{}, map[string]bool{}
+	for _, l := range na {
+		inA[l] = true
 	}
-	for i := range nb {
-		nb[i] = strings.TrimSpace(strings.Replace(nb[i], "it.src.", "it.m.", -1))
+	for _, l := range nb {
+		inB[l] = true
 	}
 	diff := ""
-	for i := 0; i < len(na) && i < len(nb); i++ {
-		if na[i] != nb[i] {
-			diff = fmt.Sprintf("statement %d: Merge `%s` vs Iter.Next `%s`", i, na[i], nb[i])
-			break
+	for _, l := range na {
+		if !inB[l] {
+			diff = "only in Merge: " + l
 		}
 	}
-	if diff == "" && len(na) != len(nb) {
-		diff = fmt.Sprintf("%d vs %d statements", len(na), len(nb))
+	for _, l := range nb {
+		if !inA[l] {
+			diff = "only in Iter.Next: " + l
+		}
 	}
-	r.Check(rule, "Map.Merge~Iter.Next", p.Rel(mg.Decl.Pos()), diff == "", "Merge re-implements the iterator inline; both traversals must visit the same entries (old vs new buckets, evacuation and wrap-around logic): "+diff)
+	r.Check(rule, "Map.Merge~Iter.Next", p.Rel(mg.Decl.Pos()), diff == "" && len(na) >= 15, "Merge re-implements the iterator inline; both traversals must visit the same entries (old vs new buckets, evacuation and wrap-around logic) — compared as sets of statements with the conditions they execute under, canonically rendered: "+diff)
 	r.Stat("statements_compared", len(na))
 	// Merge hands the found entry to the additive update
 	okAdd := false
